@@ -45,3 +45,8 @@ reg("C03", "mirror", fn="check_dirstate")
 
 # C16 Match accessors
 reg("C16", "names")
+
+# C09 iteration / lastIndex semantics
+reg("C09", "plumb")
+reg("C04", "plumb")
+reg("C14", "plumb", configs=("utf16",))
